@@ -6,7 +6,7 @@ CONSTANTS
   ServerName = "localhost"
   ServerPort = 7070
   HiCode = "FF"
-  Fixes = {"wap", "gemini", "mapfile"}
+  Fixes = {"wap", "gemini", "mapfile", "spartan"}
   LocalNames <- K_LocalNames
   RemoteSels <- K_RemoteSels
   Hosts <- K_Hosts
